@@ -19,13 +19,13 @@ CHECKS = {
             "programs every deletion / insertion / substitution / truncation with a window of "
             "symbolic tokens, through the real parse(). Every feasible path must end in a node or "
             "a CklSyntaxError with message and position; budget exhaustion confirmed by the "
-            "pristine run is reported as non-termination. Every seed program is also placed inside the list / comprehension positions whose syntax-error message renders the parsed node (node rendering must not raise); string-literal tokens whose content is punctuation, an operator or a keyword are part of the token alphabet."),
+            "pristine run is reported as non-termination. Every seed program is also placed inside the list / comprehension positions whose syntax-error message renders the parsed node (node rendering must not raise); string-literal tokens whose content is punctuation, an operator or a keyword are part of the token alphabet. Pattern and literal pool includes incompatible regex flags and literals beyond the host's int <-> str digit limit."),
     "C15": ("DESIGN.md C15",
             "All index arguments are symbolic integers (quick [-9,9], thorough [-40,40]) and the "
             "searched sequences are symbolic over a 3-symbol alphabet; sequence lengths 0..4 "
             "(thorough 0..6). Every feasible path of NodeDeref/NodeDerefAssign/NodeDerefSlice/"
             "substr/sublist/find/find_last/insert_at/delete_at is executed and compared with the "
-            "sequence model by solver obligations; exhaustive within the bounds. Lists in the positional operations have symbolic, possibly equal elements. The element taken out by s[i] is changed in place and the string read again."),
+            "sequence model by solver obligations; exhaustive within the bounds. Lists in the positional operations have symbolic, possibly equal elements. The element taken out by s[i] is changed in place and the string read again. find_last with an explicit start."),
     "C17": ("DESIGN.md C17",
             "Per year cell: month/day symbolic (date->number) and the day number symbolic over the "
             "year's interval (number->date), so every calendar day of each explored year is covered "
@@ -41,7 +41,7 @@ CHECKS["C20"] = ("DESIGN.md C20",
     "character, where the count is a z3 term over the separator characters. Planted faults "
     "(undefined name, error statement, division by zero, type error, syntax fault, fault inside a "
     "called function, fault inside a user module) behind symbolic layout: error positions, stack "
-    "trace entry and module name are checked the same way. 24 templates put the faulty token behind a symbolic gap inside an expression (operands, call arguments, pipeline/member targets, comprehension sources). Two module files with the same text; the stack trace of a later error in another file.")
+    "trace entry and module name are checked the same way. 24 templates put the faulty token behind a symbolic gap inside an expression (operands, call arguments, pipeline/member targets, comprehension sources). Two module files with the same text; the stack trace of a later error in another file. Faults behind multi-line string literals with symbolic content, inside functions called back by natives, and in module files that begin with layout.")
 
 CHECKS["C14"] = ("DESIGN.md C14",
     "Every token boundary of 56 seed programs gets a symbolic layout separator (length <= 2, "
@@ -50,7 +50,7 @@ CHECKS["C14"] = ("DESIGN.md C14",
     "input; int literals as decimal/hex/HEX/binary/underscored numerals with symbolic digits must "
     "evaluate to the value of the digits; strings single-quoted, double-quoted and \\xHH-escaped "
     "with symbolic characters must lex to the same token; != vs <>, trailing semicolons and "
-    "redundant parentheses on 12 expression seeds evaluated over symbolic int operands. Tight renderings (literal/identifier/bracket directly followed by each operator) against the spaced rendering. Optional semicolons after statements, catch handlers and before finally / end.")
+    "redundant parentheses on 12 expression seeds evaluated over symbolic int operands. Tight renderings (literal/identifier/bracket directly followed by each operator) against the spaced rendering. Optional semicolons after statements, catch handlers and before finally / end. Parenthesised statements and loop / comprehension sources; a run of underscores at a symbolic place of decimal / hex / binary literals.")
 
 CHECKS["C02"] = ("DESIGN.md C02",
     "Every ordered pair (thorough: triple) of the 14 binary operators in `u a op1 u b op2 u c`, every "
@@ -59,7 +59,7 @@ CHECKS["C02"] = ("DESIGN.md C02",
     "and compared for all values with a reference evaluator written from the property's precedence "
     "table; add/sub/mul/div/mod natives over unbounded symbolic ints against the defining "
     "equations of exact arithmetic; int/decimal/NULL kind matrix; `x is not P` against "
-    "`not (x is P)` for every identifier of the token alphabet and a value pool of every kind. Re-evaluation cells run the same parsed chain twice with independent symbolic operands (no state may be kept in the tree). All seven relational operators and all chains of two of them over int / decimal / int-backed decimal operands (1 versus 1.0, 2 versus 2.5) against numeric order.")
+    "`not (x is P)` for every identifier of the token alphabet and a value pool of every kind. Re-evaluation cells run the same parsed chain twice with independent symbolic operands (no state may be kept in the tree). All seven relational operators and all chains of two of them over int / decimal / int-backed decimal operands (1 versus 1.0, 2 versus 2.5) against numeric order. Membership (in / not in / is in / is not in) over lists, sets, map keys and strings with needles of every scalar kind; predicate words are read off the parser's source.")
 
 CHECKS["C07"] = ("DESIGN.md C07",
     "Pairs and triples of same-kind values with symbolic payloads (unbounded ints, integral "
@@ -67,7 +67,7 @@ CHECKS["C07"] = ("DESIGN.md C07",
     "characters, symbolic booleans, dates, int lists) through <, >, ==, !=, <=, >=, compare, min, "
     "max of the real interpreter against the defined order, with the strict-order laws as solver "
     "obligations; sorted() on lists of <= 4 (thorough 6) [key, tag] pairs with symbolic keys "
-    "(permutation, ordered, stable; default/key/cmp); set and map-key enumeration order. sorted() over equal-but-distinguishable elements (1 vs 1.0) with separating keys; sets/map keys mixing ints and decimals. Dates inside one calendar second and before the year 1000; every enumeration form of a set / map before and after its elements change.")
+    "(permutation, ordered, stable; default/key/cmp); set and map-key enumeration order. sorted() over equal-but-distinguishable elements (1 vs 1.0) with separating keys; sets/map keys mixing ints and decimals. Dates inside one calendar second and before the year 1000; every enumeration form of a set / map before and after its elements change. Ints against decimals with a fractional part of both signs.")
 
 CHECKS["C06"] = ("DESIGN.md C06",
     "All 64 kind pairs and 13 kind triples of data values with symbolic payloads (unbounded ints, "
@@ -78,7 +78,7 @@ CHECKS["C06"] = ("DESIGN.md C06",
     "consistency on every pair; sets/maps of 3 (thorough 4) pool elements in both insertion orders: "
     "no two equal elements, cardinality, membership, lookup, removal and container equality agree "
     "for every equal representative. The finite-domain part is an exhaustive enumeration that the "
-    "solver merely drives. Equal containers are also used as elements/keys of other containers and their hashes compared. A list that has been hashed is changed in place (index assignment, nested append, ...) and used as element / key again.")
+    "solver merely drives. Equal containers are also used as elements/keys of other containers and their hashes compared. A list that has been hashed is changed in place (index assignment, nested append, ...) and used as element / key again. Dates inside one second; maps of equal size with different keys and NULL values; list membership / find for every equal representative.")
 
 CHECKS["C08"] = ("DESIGN.md C08",
     "Strings of length <= 3 (thorough 5) over unconstrained characters (hashed positions: a "
@@ -87,7 +87,7 @@ CHECKS["C08"] = ("DESIGN.md C08",
     "real __repr__ -> real Lexer -> parse -> evaluate must return an equal value of the same type "
     "that renders to the same text; sets/maps of distinct symbolic ints render identically in "
     "every insertion order. Decimal rendering (repr(float) is C code) is a concrete ladder and "
-    "outside the solver claim. Operation sequences (3, thorough 4 steps) on one set/map object are rendered again and compared with a freshly built equal value. Pattern values over an alphabet with CR, LF, TAB, quotes and #.")
+    "outside the solver claim. Operation sequences (3, thorough 4 steps) on one set/map object are rendered again and compared with a freshly built equal value. Pattern values over an alphabet with CR, LF, TAB, quotes and #. Values of different kinds (containers among them, also built in unsorted order) as sibling elements / keys under every construction order.")
 
 CHECKS["C18"] = ("DESIGN.md C18",
     "s (<= 3, thorough 4), t, a, b (<= 2) as strings of unconstrained symbolic characters through "
@@ -106,7 +106,7 @@ CHECKS["C19"] = ("DESIGN.md C19",
     "abs/sign unbounded; the eight 32-bit bitwise natives with symbolic 32-bit words as native z3 "
     "bit-vectors and every shift count 0..40. Finite-domain parts (solver drives an exhaustive "
     "enumeration): set algebra over a 6-value mixed domain, unique, mean/median(even) under all "
-    "permutations, gcd/lcm on [-20,20]^2, pow witnesses beyond 2^53. Set algebra on a set that has been enumerated and mutated (sequences of 3, thorough 4 operations). grouped over ints, decimals and strings with duplicates and 1 versus 1.0.")
+    "permutations, gcd/lcm on [-20,20]^2, pow witnesses beyond 2^53. Set algebra on a set that has been enumerated and mutated (sequences of 3, thorough 4 operations). grouped over ints, decimals and strings with duplicates and 1 versus 1.0. Ranges with steps -3, -2, -1, 3.")
 
 CHECKS["C13"] = ("DESIGN.md C13",
     "Every function of the (secure, legacy) base environment (219 natives and module functions) with "
@@ -115,7 +115,7 @@ CHECKS["C13"] = ("DESIGN.md C13",
     "payloads symbolic in [-9, 9] (edge values are solutions of the code's branch conditions), other "
     "kinds from small pools selected by symbolic indices. Every feasible path must end in a value "
     "or a CklRuntimeError carrying a language value; other exception classes and confirmed budget "
-    "exhaustion are violations. String pools include placeholder texts ({x#12}) so that interpolation cannot loop. Quick tier: four arity-3 kind triples for every function with three parameters.")
+    "exhaustion are violations. String pools include placeholder texts ({x#12}) so that interpolation cannot loop. Quick tier: four arity-3 kind triples for every function with three parameters. Loop exits in every iteration form; malformed program texts as arguments (a syntax error raised during evaluation is a violation).")
 
 CHECKS["C16"] = ("DESIGN.md C16",
     "Argument preservation: C13's enumeration of functions, forms and kind tuples (symbolic int "
@@ -135,7 +135,7 @@ CHECKS["C05"] = ("DESIGN.md C05",
     "each (error value, undefined name, division by zero, return, break, continue), error values of "
     "several kinds, catch values, return value. The program text runs through the real parser and "
     "interpreter; result / escaping error value and the event log are compared for all values with "
-    "a reference interpreter built on Python exceptions and try/finally. Control exits inside finally parts must not swallow an error in flight; errors unwind through calls with short and long arguments. Finally parts that call a function with its own exits while an exit is pending; functions whose whole body is a block holding a single return.")
+    "a reference interpreter built on Python exceptions and try/finally. Control exits inside finally parts must not swallow an error in flight; errors unwind through calls with short and long arguments. Finally parts that call a function with its own exits while an exit is pending; functions whose whole body is a block holding a single return. Int errors against decimal catch values; runtime errors that originate from host-level exceptions, raised directly in the enclosing block.")
 
 CHECKS["C04"] = ("DESIGN.md C04",
     "10 (thorough 12) template shapes of for/while nests (depth 2, thorough 3), loops in functions, "
@@ -144,7 +144,7 @@ CHECKS["C04"] = ("DESIGN.md C04",
     "conditions; compared for all values with a reference interpreter (Python loops). Iteration "
     "order of lists, sets, map keys/values/entries/destructured pairs and strings over symbolic "
     "collections. 16 comprehension forms x iterable kinds against their explicit-loop expansion, both "
-    "run by the real interpreter on the same symbolic collection. Map loops carry fault points too; bare `return;` yields NULL. A return travelling out through a finally part that calls a function with its own early return; loops over a set / map before and after its elements change.")
+    "run by the real interpreter on the same symbolic collection. Map loops carry fault points too; bare `return;` yields NULL. A return travelling out through a finally part that calls a function with its own early return; loops over a set / map before and after its elements change. Loops over the characters of a string with every exit kind.")
 
 CHECKS["C03"] = ("DESIGN.md C03",
     "6 scoping template programs (shadowing over 4 scope levels with run-time selectors for 'this "
@@ -154,7 +154,7 @@ CHECKS["C03"] = ("DESIGN.md C03",
     "environment chains; Args.setArgs for 0..3 parameters, optional rest parameter and up to 3 "
     "(thorough 4) arguments each positional or named (p0/p1/p2/unknown) against the binding model; "
     "27 call forms (named, defaults, rest, list/map spread, pipeline, method calls with prototype "
-    "chains) with symbolic argument values. Defaults are exercised across several calls (a fresh value per call). The same identifier occurrence is evaluated before and after a nearer definition appears, through factories with / without a local and through recursion.")
+    "chains) with symbolic argument values. Defaults are exercised across several calls (a fresh value per call). The same identifier occurrence is evaluated before and after a nearer definition appears, through factories with / without a local and through recursion. Spread arguments followed by named arguments in every call form.")
 
 CHECKS["C12"] = ("DESIGN.md C12",
     "98 driver programs send sets of strings through every iteration/conversion/spread/destructuring/"
@@ -163,7 +163,7 @@ CHECKS["C12"] = ("DESIGN.md C12",
     "of maps a symbolic permutation; result, output and error must equal those of the canonical "
     "order for every permutation (sizes 3, thorough 4). Counterexamples are replayed by running the "
     "program in fresh processes under up to 32 PYTHONHASHSEEDs until two outputs differ. The model "
-    "(any order) over-approximates CPython's actual orders. Sets of mixed scalars, sorted() with ties under key/cmp, and sorted-order expectations for spread/destructuring. Maps with non-string keys (passed positionally when spread into a call) under every construction order.")
+    "(any order) over-approximates CPython's actual orders. Sets of mixed scalars, sorted() with ties under key/cmp, and sorted-order expectations for spread/destructuring. Maps with non-string keys (passed positionally when spread into a call) under every construction order. Operators with a set operand; comprehensions and loops whose result depends on the enumeration order of a set source.")
 
 CHECKS["C10"] = ("DESIGN.md C10",
     "Histories of 3 (thorough 4) commands over a 24-command alphabet (define, assign, read, call, "
@@ -185,7 +185,7 @@ CHECKS["C11"] = ("DESIGN.md C11",
     "chosen by symbolic selectors over 12 forms against real user modules (chain, diamond, 2-cycle, "
     "self-require, private/public mix, shadowing): each body runs at most once, all importers share "
     "one instance, module code cannot see importer variables, cycles are errors, private names are "
-    "unreachable. Finite-domain enumeration driven by the solver. A module with public mutable data is required again after its state changed or after an importer wrote to its module object.")
+    "unreachable. Finite-domain enumeration driven by the solver. A module with public mutable data is required again after its state changed or after an importer wrote to its module object. A module body starts at most once per require (cycles closing on the outermost module).")
 
 CHECKS["C09"] = ("DESIGN.md C09",
     "bind_native(name[, alias]) through the interpreter with the native name symbolic over all 122 "
